@@ -424,7 +424,149 @@ def judge : Judge := liftJudge fun input obs => do
   pure { agree := agree, spec := spec, expected := Json.arr expected.toArray, tags := tags,
          nontrivial := nCalls ≥ 3 && nNonInit ≥ 1, sig := sig, note := note }
 
-def judges : List (String × Judge) := [("C20", judge)]
+/-! ### Judge `superbusy` (engineer mux; seeded change C20-m5)
+
+Harness `superbusy`: the real run loops; `busy[i] = k > 0` means: the supervisor goroutine is held inside the
+event of snapshot `i` (a scripted kind blocks in Init / Inherit) while the registry applies the next `k` snapshots,
+whose events queue up behind it; then it is released. The steps of items `i … i+k-1` are `deferred` (nothing can be
+observed while the consumer is blocked); the step of item `i+k` carries every lifecycle call of the batch, the live
+set and the registry at its end.
+
+By `exactly_once_any_interleaving` / `exactly_once_when_drained` (queue model) the consumer, once drained, is the
+synchronous model's — so `agree` compares, per name, the calls of the batch with the model's calls accumulated
+over the batch's items (the order between different names inside one event is Go's map order; between events it
+is FIFO), and `spec` compares them with the concatenation of `wordStep` over the batch's items. -/
+def judgeBusy : Judge := liftJudge fun input obs => do
+  let inp ← parseIn input
+  match obsPanic obs with
+  | some m => pure { agree := false, spec := false, sig := "panic:escaped-the-recovery", note := m }
+  | none =>
+  if (optStr obs "error") != "" then
+    pure { agree := false, spec := false, sig := "harness-error:" ++ optStr obs "error", note := optStr obs "error" }
+  else
+  let stepsJ ← getArr obs "steps"
+  let osteps ← stepsJ.toList.mapM parseStep
+  let deferred : List Bool := stepsJ.toList.map (fun j => optBool j "deferred")
+  let busy : List Nat := match getIntList input "busy" with | .ok l => l.map Int.toNat | .error _ => []
+  let hist := inp.hist.map (fun h => (h.1.map (validate inp), h.2))
+  let names := (hist.foldl (fun acc h => match h.1 with
+      | some c => acc ++ c.map (·.1) | none => acc) ([] : List Nat)).eraseDups
+  match inp.watchers.head? with
+  | none => pure (badInput "no watcher")
+  | some w =>
+  let P := mkParams inp w
+  let mut agree := osteps.length == hist.length && deferred.length == hist.length
+  let mut spec := true
+  let mut sig := ""
+  let mut note := ""
+  let mut sys : Sys := Sys.init
+  let mut att := false
+  let mut regs : List (Nat × Option Entity) := names.map (fun n => (n, none))
+  let mut g : Nat := 0
+  -- accumulated since the last observed step
+  let mut accModel : List Call := []
+  let mut accWords : List (Nat × List Call) := names.map (fun n => (n, []))
+  let mut batchLen : Nat := 0
+  let mut maxBatch : Nat := 0
+  let mut nCalls : Nat := 0
+  let mut nNonInit : Nat := 0
+  let mut flapEq := false
+  let mut flapNe := false
+  let mut appearFlap := false
+  let mut hist3 : List (Nat × List (Option Entity)) := names.map (fun n => (n, []))  -- per name: views inside the batch
+  let mut expected : List Json := []
+  let mut idx : Nat := 0
+  for ((h, os), dfr) in (hist.zip osteps).zip deferred do
+    let item : Item := match h.1 with | some cfg => .snap cfg | none => .attach
+    let sys' := step P sys item
+    accModel := accModel ++ sys'.w.cons.log.drop sys.w.cons.log.length
+    let att' := match item with | .attach => true | .snap _ => att
+    let regs' := regs.map (fun (n, r) => match item with
+      | .attach => (n, r)
+      | .snap cfg => (n, regNext g r (cfg.get n)))
+    accWords := (accWords.zip (regs.zip regs')).map fun ((n, wds), ((_, r), (_, r'))) =>
+      (n, wds ++ wordStep P n (view P att r) (view P att' r'))
+    hist3 := (hist3.zip regs').map fun ((n, vs), (_, r')) => (n, vs ++ [view P att' r'])
+    batchLen := batchLen + 1
+    if !dfr then
+      let olog := os.log.filter (fun c => P.passes c.ent)
+      let olive := os.live.filter (fun e => P.passes e.2)
+      -- model
+      for n in names do
+        if callsOf n olog != callsOf n accModel then
+          agree := false
+          if note == "" then note := s!"step {idx}: calls on name {n} differ from the model"
+      let mlive := sortBy (fun a b => a.1 < b.1) (sys'.w.cons.store.map (fun e => (e.1.2, e.2)))
+      if sortEnts olive != mlive then
+        agree := false
+        if note == "" then note := s!"step {idx}: live set differs from the model"
+      if sortEnts os.reg != sortEnts sys'.ents then
+        agree := false
+        if note == "" then note := s!"step {idx}: registry differs from the model"
+      -- specification, per name
+      for ((n, want), (_, r')) in accWords.zip regs' do
+        let got := callsOf n olog
+        let liveN := (olive.filter (fun e => e.1 == n)).map (·.2)
+        let liveWant := match view P att' r' with | some e => [e] | none => []
+        if spec then
+          if got != want then
+            spec := false
+            let detail :=
+              if got.map (·.op) != want.map (·.op) then ""
+              else if got.map (·.prev) != want.map (·.prev) then "!predecessor"
+              else if got.map (·.ent) != want.map (·.ent) then "!object"
+              else "!panic-flag"
+            sig := s!"busy{if batchLen > 1 then "-batch" else ""}:want={wordStr want},got={wordStr got}{detail}"
+            note := s!"step {idx} name {n} (batch of {batchLen})"
+          else if liveN != liveWant then
+            spec := false
+            sig := s!"busy{if batchLen > 1 then "-batch" else ""}:live-set"
+            note := s!"step {idx} name {n} (batch of {batchLen})"
+      if spec && olog.any (fun c => !names.contains c.name) then
+        spec := false
+        sig := "call-on-unknown-name"
+      -- classification of the batch: a name that changes / appears, disappears and reappears inside it
+      if batchLen ≥ 3 then
+        for (_, vs) in hist3 do
+          let tl := vs.drop 1   -- the views produced while the consumer was blocked
+          let rec scan : List (Option Entity) → Bool × Bool
+            | some a :: none :: some b :: _ => (a.kind == b.kind && a.body == b.body, !(a.kind == b.kind && a.body == b.body))
+            | _ :: r => scan r
+            | [] => (false, false)
+          let (e, d) := scan tl
+          if e then flapEq := true
+          if d then flapNe := true
+          let rec scanA : List (Option Entity) → Bool
+            | none :: some _ :: none :: some _ :: _ => true
+            | _ :: r => scanA r
+            | [] => false
+          if scanA vs then appearFlap := true
+      expected := expected ++ [Json.mkObj [("log", Json.arr (accModel.map callJson).toArray),
+        ("live", Json.arr (mlive.map entJson).toArray)]]
+      nCalls := nCalls + olog.length
+      nNonInit := nNonInit + (olog.filter (fun c => c.op != .init)).length
+      if batchLen > maxBatch then maxBatch := batchLen
+      accModel := []
+      accWords := names.map (fun n => (n, []))
+      hist3 := regs'.map (fun (n, r') => (n, [view P att' r']))
+      batchLen := 0
+    match h.1 with
+    | some _ => g := g + 1
+    | none => pure ()
+    sys := sys'
+    att := att'
+    regs := regs'
+    idx := idx + 1
+  let tags := [s!"max-batch:{maxBatch}"]
+    ++ (if busy.any (· > 0) then ["busy-consumer"] else ["never-busy"])
+    ++ (if flapEq then ["batch:flap-reappears-with-equal-spec"] else [])
+    ++ (if flapNe then ["batch:flap-reappears-with-different-spec"] else [])
+    ++ (if appearFlap then ["batch:appear-disappear-reappear"] else [])
+    ++ (if inp.panics.isEmpty then ["no-faults"] else ["faults"])
+  pure { agree := agree, spec := spec, expected := Json.arr expected.toArray, tags := tags,
+         nontrivial := maxBatch ≥ 3 && nCalls ≥ 3 && nNonInit ≥ 1, sig := sig, note := note }
+
+def judges : List (String × Judge) := [("C20", judge), ("superbusy", judgeBusy)]
 
 end Driver.C20
 
